@@ -53,6 +53,24 @@ fn main() {
             let samples: Vec<&Value> = cases.iter().step_by((cases.len() / 3).max(1)).take(3).collect();
             println!("{}", json!({"cases": cases.len(), "prop_mismatch": nprop, "model_drift": 0, "prop": prop, "model": [], "samples": samples}));
         }
+        ("replay", "maps") => {
+            let cases = load_cases(&args[3]);
+            let vt: usize = std::env::var("VH_VTYPES").ok().and_then(|s| s.parse().ok()).unwrap_or(5);
+            let mut prop: Vec<Value> = vec![];
+            let mut model: Vec<Value> = vec![];
+            let (mut nprop, mut nmodel) = (0usize, 0usize);
+            for c in &cases {
+                let o = vh::maps::replay_one(c, vt);
+                if !o.prop.is_empty() {
+                    nprop += 1;
+                    if prop.len() < 50 { prop.push(json!({"case": c, "why": o.prop, "key": format!("maps:{}:{}", c["kind"].as_str().unwrap(), vh::maps::source_of(c))})); }
+                }
+                if !o.model.is_empty() { nmodel += 1; if model.len() < 5 { model.push(json!({"case": c, "why": o.model})); } }
+            }
+            let samples: Vec<Value> = cases.iter().step_by((cases.len() / 3).max(1)).take(3).map(|c| json!({"kind": c["kind"], "source": vh::maps::source_of(c), "expect": c["expect"]})).collect();
+            println!("{}", json!({"cases": cases.len(), "prop_mismatch": nprop, "model_drift": nmodel, "prop": prop, "model": model, "samples": samples,
+                                   "counts": {"instantiation_runs": cases.len() * if vt > 1 { 9 } else { 2 }}}));
+        }
         ("record", "accum") => {
             let seed: u64 = args[3].parse().unwrap();
             let runs: usize = args[4].parse().unwrap();
